@@ -185,6 +185,8 @@ class C17(Check):
             out.append(("sequence", block, tier))
         out.append(("seqhist", tier))
         out.append(("round2", tier))
+        for block in range(4):
+            out.append(("apihist", block))
         for gi in range(len(GEN_CASES)):
             out.append(("formats", gi, tier))
         return out
@@ -748,9 +750,75 @@ class C17(Check):
         finally:
             cli.cleanup(d)
 
+    # ---------------------------------------------------------------- API histories
+    APIHIST_TEXTS = None
+
+    def apihist_texts(self):
+        """small inputs that differ in how they spell one gap: type in three spellings + contig, length 100 / 200 / 0200, AGP and TPF"""
+        if C17.APIHIST_TEXTS is None:
+            out = []
+            for gt in ("scaffold", "Scaffold", "SCAFFOLD", "contig"):
+                for gl in ("100", "200"):
+                    n = int(gl)
+                    out.append(("AGP", f"{gt}{gl}", f"s_1\t1\t50\t1\tW\tc1\t1\t50\t+\ns_1\t51\t{50 + n}\t2\tU\t{gl}\t{gt}\tyes\tproximity_ligation\ns_1\t{51 + n}\t{90 + n}\t3\tW\tc2\t1\t40\t-\n"))
+            for ty, gl in (("TYPE-2", "200"), ("TYPE-3", "200"), ("TYPE-2", "0200"), ("Scaffold", "200"), ("TYPE-2", "100")):
+                out.append(("TPF", f"{ty}/{gl}", f"?\tc1:1-50\ts_1\tPLUS\nGAP\t{ty}\t{gl}\n?\tc2:1-40\ts_1\tMINUS\n"))
+            C17.APIHIST_TEXTS = out
+        return C17.APIHIST_TEXTS
+
+    def api_histories(self, block, ctx, only=None):
+        """parse A, format it; parse one or two other inputs; format the held A again: same bytes (AGP and TPF)"""
+        import io
+
+        from tola.assembly.format import format_agp, format_tpf
+        from tola.assembly.parser import parse_agp, parse_tpf
+
+        texts = self.apihist_texts()
+
+        def load(i):
+            fmt, _label, txt = texts[i]
+            return (parse_agp if fmt == "AGP" else parse_tpf)(io.StringIO(txt), "x")
+
+        def dump(asm):
+            a, t = io.StringIO(), io.StringIO()
+            format_agp(asm, a)
+            format_tpf(asm, t)
+            return a.getvalue(), t.getvalue()
+
+        n = len(texts)
+        hists = [(i, j) for i in range(n) for j in range(n)] + [(i, j, k) for i in range(n) for j in range(n) for k in range(n) if j != k]
+        for hi, hist in enumerate(hists):
+            if only is not None:
+                if list(hist) != list(only):
+                    continue
+            elif hi % 4 != block:
+                continue
+            case = ["apihist", list(hist), [texts[i][1] for i in hist]]
+            ctx.cur = case
+            ctx.evaluations += 1
+            ctx.nontrivial += 1
+            try:
+                held = load(hist[0])
+                first = dump(held)
+                others = [load(i) for i in hist[1:]]
+                other_first = [dump(o) for o in others]
+                again = dump(held)
+                others_again = [dump(o) for o in others]
+            except Exception as e:  # noqa: BLE001
+                ctx.violation(f"apihist-raises:{type(e).__name__}", case, repr(e))
+                continue
+            if again != first:
+                ctx.violation("held-assembly-output-changed-by-later-parse", case, f"first {first!r} later {again!r}")
+            elif others_again != other_first:
+                ctx.violation("held-assembly-output-changed-by-later-parse/others", case, f"first {other_first!r} later {others_again!r}")
+            ctx.outcome(h64((first, other_first)))
+        ctx.sample({"apihist": "parse A, format; parse B (and C); format the held A again", "inputs": [t[1] for t in texts]})
+
     # ------------------------------------------------------------------
     def run_shard(self, shard, ctx):
         kind = shard[0]
+        if kind == "apihist":
+            return self.api_histories(shard[1], ctx)
         if kind == "tagorder":
             self.tag_orders(shard[1], shard[2], shard[3], ctx)
         elif kind == "digest":
@@ -773,6 +841,8 @@ class C17(Check):
     def replay(self, case, ctx):
         kind = case[0]
         tier = ctx.tier
+        if kind == "apihist":
+            return self.api_histories(0, ctx, only=case[1])
         if kind == "tagorder":
             self.tag_orders(0, 1, "thorough", ctx, only=case[2])
         elif kind == "digest":
@@ -799,3 +869,4 @@ CHECK = C17()
 CHECK.rule += ' Sequence histories: the same FASTA path holding another file for the second invocation (caches removed or kept), and the same scaffold name with another rank in the second invocation; compared with the second invocation alone in a fresh process.'
 CHECK.rule += ' Also a job that needs lettered chromosome names (SUPER_1A / SUPER_1B) run twice in one process. Buffer sweep also over strings with the ambiguity code R (length <= 6).'
 CHECK.rule += ' Second round: every FASTA written by a first run is used as --assembly of a second run, where the first run left it (with and without a .fai made by another tool) and copied alone; same outputs. Generated cases include Primary mode with three haplotypes.'
+CHECK.rule += ' API histories: an assembly parsed and formatted, then one or two other inputs parsed in the same process (every ordered pair and triple of 13 small AGP / TPF texts that spell one gap differently: type scaffold / Scaffold / SCAFFOLD / contig / TYPE-2 / TYPE-3, length 100 / 200 / 0200); formatting the held assembly again must give the same AGP and TPF bytes.'
